@@ -2,6 +2,7 @@ package props
 
 import (
 	"bytes"
+	"context"
 	"crypto/tls"
 	"errors"
 	"io"
@@ -764,6 +765,86 @@ func TestC14(t *testing.T) {
 				return
 			}
 			c.Event("large_read_runs", 1)
+			c.Event("channels_checked", 1)
+		})
+	})
+	// the application keeps a context of its own on the connection (SetContext: a request-scoped
+	// value, a context with a cancel or a deadline).  The CloseNotify channel tells about the
+	// connection, not about that context: it does not fire when the context is cancelled and it
+	// does fire when the peer goes away
+	rec.Suite("closenotify-with-own-context", 6*rec.N(2, 40), func(c *ev.Case) {
+		variant := c.I % 6
+		c.Class("closenotify-with-own-context/variant=%d", variant)
+		run(c, "E", func() {
+			sig := func(op string) ev.Sig {
+				return ev.Sig{"op": op, "termination": "E", "variant": "closenotify-with-own-context"}
+			}
+			var mu sync.Mutex
+			var seen []uint32
+			hf := diam.HandlerFunc(func(dc diam.Conn, m *diam.Message) {
+				mu.Lock()
+				seen = append(seen, m.Header.HopByHopID)
+				mu.Unlock()
+			})
+			mc := memnet.NewConn()
+			conn, err := diam.NewConn(mc, "a", hf, ctx.Parser)
+			if err != nil {
+				c.Fail(sig("setup"), nil, nil, "NewConn: %v", err)
+				return
+			}
+			type key struct{}
+			var cancel context.CancelFunc = func() {}
+			set := func() {
+				switch variant % 3 {
+				case 0:
+					conn.SetContext(context.WithValue(context.Background(), key{}, 1))
+				case 1:
+					var cx context.Context
+					cx, cancel = context.WithCancel(conn.Context())
+					conn.SetContext(cx)
+				case 2:
+					var cx context.Context
+					cx, cancel = context.WithTimeout(context.Background(), time.Second)
+					conn.SetContext(cx)
+				}
+			}
+			var ch <-chan struct{}
+			if variant < 3 {
+				set()
+				ch = conn.(diam.CloseNotifier).CloseNotify()
+			} else {
+				ch = conn.(diam.CloseNotifier).CloseNotify()
+				set()
+			}
+			mc.Feed(seqMsg(1, 12))
+			synctest.Wait()
+			cancel()
+			time.Sleep(3 * time.Second) // virtual: the application's context has been cancelled / has expired
+			synctest.Wait()
+			select {
+			case <-ch:
+				c.Fail(sig("closed-before-termination"), nil, nil, "the CloseNotify channel is closed although the connection is up: only the context that the application put on the connection (variant %d) was cancelled or expired", variant)
+				return
+			default:
+			}
+			mc.Feed(seqMsg(2, 12))
+			synctest.Wait()
+			mu.Lock()
+			n := len(seen)
+			mu.Unlock()
+			if n != 2 || mc.CloseCount() != 0 {
+				c.Fail(sig("message-log"), nil, nil, "after the application's own context ended, %d of 2 messages were delivered and the transport was closed %d time(s)", n, mc.CloseCount())
+				return
+			}
+			mc.FeedEOF()
+			synctest.Wait()
+			select {
+			case <-ch:
+			default:
+				c.Fail(sig("not-closed-after-termination"), nil, nil, "the peer closed; the CloseNotify channel of a connection that carries a context of the application (variant %d) is not closed at quiescence", variant)
+				return
+			}
+			c.Event("own_context_runs", 1)
 			c.Event("channels_checked", 1)
 		})
 	})
